@@ -23,7 +23,7 @@ var oddSubSegs = []string{"with space", "üni", "per%20cent", "plus+", "at@v1", 
 var names = []string{"hashicorp", "subnets", "cidr", "aws", "my-ns", "mod_1", "A", "a1", "x-y_z"}
 var systems = []string{"aws", "azurerm", "cidr", "null", "a1", "k8s"}
 var versions = []string{"1.0.0", "0.1.2", "2.10.3", "1.0.0-beta1", "1.2.3+build5", "0.0.1", "10.20.30", "1.0.0-rc.1+meta"}
-var refVals = []string{"main", "v1.2.3", "feature/x", "abc123", "release-1", "a.b"}
+var refVals = []string{"main", "v1.2.3", "feature/x", "abc123", "release-1", "a.b", "release//2024", "a//b"}
 
 func segs(t *rapid.T, label string, pool, odd []string, oddPct, min, max int) []string {
 	n := rapid.IntRange(min, max).Draw(t, label+"n")
@@ -97,7 +97,7 @@ func Valid(t *rapid.T, kind string) string {
 		case 2:
 			s += "download" + sub + "?archive=" + rapid.SampledFrom([]string{"tgz", "tar.gz"}).Draw(t, "archive")
 		default:
-			s += "pkg.tgz" + sub + "?" + rapid.SampledFrom([]string{"token=abc", "v=1&w=2", "something=anything"}).Draw(t, "q")
+			s += "pkg.tgz" + sub + "?" + rapid.SampledFrom([]string{"token=abc", "v=1&w=2", "something=anything", "mirror=https://cdn.example.net/pkg.tgz", "next=//x"}).Draw(t, "q")
 		}
 		if rapid.IntRange(0, 5).Draw(t, "httptype") == 0 {
 			s = "http::" + s
@@ -158,6 +158,18 @@ func Violation(t *rapid.T) (string, string) {
 		{"https-type-wrong-scheme", "https::ssh://" + host + "/pkg.tgz"},
 		{"shorthand-too-short", "github.com/hashicorp"},
 		{"shorthand-subpath-dotdot", "gitlab.com/hashicorp/repo/a/../b"},
+		{"github-subpath-dotdot", "github.com/hashicorp/go-slug/modules/../examples"},
+		{"github-subpath-dot", "github.com/hashicorp/go-slug/a/./b"},
+		{"github-subpath-empty", "github.com/hashicorp/go-slug/a//b"},
+		{"github-subpath-leading-dot", "github.com/hashicorp/go-slug/./a"},
+		{"github-subpath-trailing-dot", "github.com/hashicorp/go-slug/a/."},
+		{"github-subpath-trailing-dotdot", "github.com/hashicorp/go-slug/a/b/.."},
+		{"github-subpath-trailing-slash", "github.com/hashicorp/go-slug/a/"},
+		{"gitlab-subpath-dot", "gitlab.com/hashicorp/go-slug/a/./b"},
+		{"gitlab-subpath-empty", "gitlab.com/hashicorp/go-slug/a//b"},
+		{"gitlab-subpath-trailing-slash", "gitlab.com/hashicorp/go-slug/a/b/"},
+		{"registry-like-subpath-dotdot", "git::https://" + host + "/repo.git//a/b/.."},
+		{"subpath-trailing-dot", "git::https://" + host + "/repo.git//a/."},
 	}
 	r := rules[rapid.IntRange(0, len(rules)-1).Draw(t, "rule")]
 	return r.s, r.name
